@@ -1,3 +1,4 @@
 -- family downsample: C36 C37 C38 C39.  Everything listed here must build: it is part of `lake build`.
 import Thanos.Driver.Downsample
 import Thanos.Props.C39
+import Thanos.Props.C36
